@@ -782,10 +782,15 @@ fn key_shapes<K: Leaf + Ord>(rep: &mut Report, sub: &str, seed: u64, r: &mut Rng
     // a key that is a sequence has no JSON form; only the in-memory round trip is judged
     let m: BTreeMap<(K, K), K> = std::iter::once(((a.clone(), next(r)), a.clone())).collect();
     go!("map-tuple-key", cls, m, false);
+    // keys that serialize to null (an absent optional, unit): no JSON form either, the in-memory round trip must still hold
+    let m: BTreeMap<Option<K>, K> = [(None, a.clone()), (Some(a.clone()), next(r))].into_iter().collect();
+    go!("map-option-key", cls, m, false);
+    let m: BTreeMap<(), K> = std::iter::once(((), a.clone())).collect();
+    go!("map-unit-key", cls, m, false);
 }
 
 const N_VALUE_SHAPES: u64 = 16;
-const N_KEY_SHAPES: u64 = 5;
+const N_KEY_SHAPES: u64 = 7;
 /// value leaves: 10 ints, f32, f64, char, bool, string, binary, enum
 const N_VALUE_LEAVES: u64 = 17;
 /// key leaves: 10 ints, f32 (F32Key), f64 (DoubleKey), char, bool, string, binary, enum
@@ -1163,8 +1168,9 @@ pub fn run(ctx: &Ctx, report: &mut Report) {
         };
         let (rt, je, co) = (cells("/roundtrip"), cells("/json-eq"), cells("/coerce"));
         report.floor("wide-roundtrip-cells", shapes, rt);
-        report.floor("wide-json-cells", shapes - N_KEY_LEAVES, je);
-        report.floor("wide-coerce-cells", (N_VALUE_LEAVES - 2) * N_VALUE_SHAPES + (N_KEY_LEAVES - 2) * (N_KEY_SHAPES - 1), co);
+        // three key shapes (tuple, optional, unit keys) have no JSON form: only the in-memory round trip is judged there
+        report.floor("wide-json-cells", shapes - 3 * N_KEY_LEAVES, je);
+        report.floor("wide-coerce-cells", (N_VALUE_LEAVES - 2) * N_VALUE_SHAPES + (N_KEY_LEAVES - 2) * (N_KEY_SHAPES - 3), co);
         report.floor_cells("node-cells", "node/", 3);
         report.floor_cells("doc-routes", "doc/", 2);
         let full = ctx.scale >= 1.0;
